@@ -422,3 +422,72 @@ def configs(draw):
         "auto_init_attributes": draw(st.booleans()),
         "use_regexp_group": draw(st.sampled_from([False, False, True])),
     }
+
+
+# ---------------------------------------------------------------------------------------------
+# C02: grammars that assign the same attribute several times in nestings of sequence, ordered choice,
+# optional, repetition and unordered group (values include falsy ones: 0, "", false)
+
+ASG_RHS = [["ref", "INT"], ["ref", "INT"], ["ref", "ID"], ["ref", "STRING"], ["ref", "BOOL"], ["str", "x1"]]
+ASG_KW = ["aa", "bb", "cc", "kw", ",", ";", ":", "(", ")"]
+
+
+@st.composite
+def asg_nest(draw, depth, attrs, in_rep=False, sub=None):
+    c = draw(st.integers(0, 11 if depth > 0 else 4))
+    if c <= 4:
+        attr = draw(st.sampled_from(attrs))
+        op = draw(st.sampled_from(["=", "=", "=", "=", "+=", "*="]))
+        rhs = draw(st.sampled_from(ASG_RHS if sub is None else ASG_RHS + [["ref", sub]] * 3))
+        a = ["asg", attr, op, rhs, draw(seps()) if op != "=" else None, False]
+        # a keyword in front keeps alternatives and iterations apart
+        if draw(st.booleans()):
+            return ["seq", [["str", draw(st.sampled_from(ASG_KW))], a]]
+        return a
+    if c <= 6:
+        n = draw(st.integers(2, 3))
+        return ["seq", [draw(asg_nest(depth - 1, attrs, in_rep, sub)) for _ in range(n)]]
+    if c <= 8:
+        n = draw(st.integers(2, 3))
+        alts = []
+        for _ in range(n):
+            x = draw(asg_nest(depth - 1, attrs, in_rep, sub))
+            if nodeless(x):
+                x = ["seq", [["str", draw(st.sampled_from(ASG_KW))], x]]
+            alts.append(x)
+        return ["alt", alts]
+    if c == 9:
+        return ["opt", draw(asg_nest(depth - 1, attrs, in_rep, sub))]
+    if c == 10 and not in_rep:
+        x = draw(asg_nest(depth - 1, attrs, True, sub))
+        if nodeless(x):
+            x = ["seq", [["str", draw(st.sampled_from(ASG_KW))], x]]
+        return [draw(st.sampled_from(["star", "plus"])), x, draw(seps()), False]
+    if c == 11 and not in_rep:
+        ms = []
+        for _ in range(draw(st.integers(2, 3))):
+            x = draw(asg_nest(0, attrs, True, sub))
+            if nodeless(x):
+                x = ["seq", [["str", draw(st.sampled_from(ASG_KW))], x]]
+            ms.append(x)
+        return ["unord", ms, None]
+    attr = draw(st.sampled_from(attrs))
+    return ["asg", attr, "=", draw(st.sampled_from(ASG_RHS)), None, False]
+
+
+@st.composite
+def assign_grammars(draw):
+    attrs = draw(st.sampled_from([["a"], ["a", "b"], ["a", "b"]]))
+    two = draw(st.booleans())
+    body = draw(asg_nest(3, attrs, False, "R1" if two else None))
+    if body[0] != "seq":
+        body = ["seq", [body]]
+    if nodeless(body):
+        body = ["seq", [["str", "begin"]] + body[1]]
+    rules = [{"name": "R0", "mods": {}, "body": body}]
+    if two:
+        b1 = draw(asg_nest(2, attrs, False, None))
+        if nodeless(b1):
+            b1 = ["seq", [["str", "@"], b1]]
+        rules.append({"name": "R1", "mods": {}, "body": b1})
+    return {"rules": rules, "comment": None}
